@@ -12,7 +12,7 @@ REQUIRED_MONITORS = ["decomposition@SD_svalsvec", "pick@FDD_mpe(function, Hermit
                      "pick@FDD_MS.mpe", "pick@EFDD first stage", "narrow-band amplitudes@FDD"]
 ALL_STATES = ["band clipped by grid start", "band clipped by grid end", "selected frequency between lines", "maximum at band edge candidate",
               "several peaks in band", "non-square spectrum", "2 channels", "8 channels"]
-REQUIRED_STATES = ["band clipped by grid end", "selected frequency between lines", "several peaks in band", "non-square spectrum", "array object refilled in place"]
+REQUIRED_STATES = ["band clipped by grid end", "selected frequency between lines", "several peaks in band", "non-square spectrum", "array object refilled in place", "band below 0 Hz while the dominant line of the grid is at Nyquist", "EFDD with cm=2"]
 RULE = ("spectral sequences: synthetic Hermitian (sums of rank-one bells with complex shapes + full-rank floor), half spectra from the 'cor' "
         "estimator, spectra of random responses through FDD / FDD_MS / EFDD; DF 1..15 line spacings, selected frequencies anywhere in the grid; "
         "postconditions on every SD_svalsvec and FDD_mpe call; non-trivial = band holds >= 3 lines and sigma1/sigma2 varies by > 1 % in it; "
@@ -154,6 +154,13 @@ def run_synth(ctx, rng):
         w = rng.uniform(1, 10) * df
         bell = 1 / ((freq - f0) ** 2 + w**2)
         S += np.conj(a)[:, None, None] * a[None, :, None] * bell[None, None, :]
+    near_nyq = rng.random() < 0.25
+    if near_nyq:
+        # a tonal, nearly rank-one component in the last lines: the largest sigma1/sigma2 of the whole grid sits next to Nyquist
+        a = rng.standard_normal(nch) + 1j * rng.standard_normal(nch)
+        bell = np.zeros(nf)
+        bell[-4:] = 50 * np.max(np.abs(S))
+        S += np.conj(a)[:, None, None] * a[None, :, None] * bell[None, None, :]
     W = rng.standard_normal((nch, nch)) + 1j * rng.standard_normal((nch, nch))
     S += (W @ W.conj().T)[:, :, None] * 10 ** rng.uniform(-4, -1) * np.max(np.abs(S)) * (1 + 0.5 * np.sin(np.arange(nf) * rng.uniform(0.1, 1)))[None, None, :]
     S *= 10 ** rng.uniform(-6, 6)
@@ -161,6 +168,10 @@ def run_synth(ctx, rng):
     Sval, Svec = fdd.SD_svalsvec(S)
     check_decomposition(ctx, Sc, Sval, Svec)
     sel, DF = draw_requests(rng, freq)
+    if near_nyq:
+        sel[0] = float(freq[0] + rng.uniform(0.5, 3) * df)
+        DF = float(max(DF, sel[0] + rng.uniform(0.5, 3) * df))  # the band reaches below 0 Hz
+        ctx.state("band below 0 Hz while the dominant line of the grid is at Nyquist")
     Fn, Phi = fdd.FDD_mpe(Sval, Svec, freq, list(sel), DF=DF)
     check_pick(ctx, "pick@FDD_mpe(function, Hermitian)", "fn", Sc, freq, sel, DF, Fn, Phi)
     ctx.check(np.array_equal(S, Sc), "inputs_modified", "SD_svalsvec / FDD_mpe modified the spectral matrix")
@@ -232,7 +243,10 @@ def run_classes(ctx, rng):
         del rec[:]
         DF1 = float(rng.uniform(1, 6) * e.result.freq[1])
         try:
-            ss.mpe("efdd", sel_freq=list(sel), DF1=DF1, DF2=3.0)
+            cm = int(rng.choice([1, 2]))
+            ss.mpe("efdd", sel_freq=list(sel), DF1=DF1, DF2=3.0, cm=cm)
+            if cm == 2:
+                ctx.state("EFDD with cm=2")
         except Exception:  # noqa: BLE001  (the damping fit is C07's business)
             pass
         if ctx.check(len(rec) >= 1, "efdd:first_stage_not_fdd", "EFDD.mpe did not go through FDD_mpe"):
